@@ -72,7 +72,7 @@ def cases(tier, rng, run):
                             c0, _o, sh0 = sp.split(",", 2)
                             specs[i2] = f"{c0},{rng.choice('1457')},{sh0}"
                     # a plain position may also be spelled `Annotated[int, <metadata that is no dltype annotation>]`
-                    specs = [(rng.choice(["-a", "-u", "-o"]) if sp == "-" and rng.random() < 0.6 else sp) for sp in specs]   # (… or a PEP 604 union of plain types: `int | str`, `int | None`)
+                    specs = [(rng.choice(["-a", "-u", "-o", "-n", "-v", "-s"]) if sp == "-" and rng.random() < 0.6 else sp) for sp in specs]   # (… or a PEP 604 union of plain types: `int | str`, `int | None`)
                     p = f"P|t|T|{';'.join(specs)}|U:{';'.join(vals)}"
                     first = "P|x|S|FloatTensor,0,a|T,2:float32,3"
                     out.append(Case(f"CALL\tfunc:pos\t-\t\t{first}\t{p}", f"param{n}"))
